@@ -239,11 +239,12 @@ theorem C19_sub_range_exact (axes : List Nat) (t1 t2 : Key) (h : Hist) (hn : h.k
   rw [gen h hn []]
   simp [Hist.get]
 
-/-- std::vector filler: entry i holds its previous value plus the number of pixels equal to i -/
-theorem C19_vector_counts (size : Nat) (old : List Nat) (pixels : List Int) (i : Nat) (hi : i < size)
+/-- std::vector filler: EVERY entry (also beyond max+1 of the view's channel type, fix 09f7546) holds its previous value plus the
+    number of pixels equal to its index -/
+theorem C19_vector_counts (size : Nat) (old : List Nat) (pixels : List Int) (i : Nat)
     (hp : ∀ p ∈ pixels, 0 ≤ p ∧ p < size) :
     (vectorFill size old pixels).getD i 0 = old.getD i 0 + (pixels.filter (fun p => decide (p = (i : Int)))).length := by
-  have gen : ∀ (pixels : List Int) (v : List Nat), v.length = size → (∀ p ∈ pixels, 0 ≤ p ∧ p < size) →
+  have gen : ∀ (pixels : List Int) (v : List Nat), size ≤ v.length → (∀ p ∈ pixels, 0 ≤ p ∧ p < size) →
       (pixels.foldl (fun v p => v.set p.toNat (v.getD p.toNat 0 + 1)) v).getD i 0
         = v.getD i 0 + (pixels.filter (fun p => decide (p = (i : Int)))).length := by
     intro pixels
@@ -252,7 +253,7 @@ theorem C19_vector_counts (size : Nat) (old : List Nat) (pixels : List Int) (i :
     | cons p rest ih =>
       intro v hv hp
       have hp0 := hp p List.mem_cons_self
-      rw [List.foldl_cons, ih _ (by simp [hv]) (fun q hq => hp q (List.mem_cons_of_mem _ hq))]
+      rw [List.foldl_cons, ih _ (by simp; omega) (fun q hq => hp q (List.mem_cons_of_mem _ hq))]
       simp only [List.filter_cons]
       by_cases e : p = (i : Int)
       · subst e
@@ -266,12 +267,24 @@ theorem C19_vector_counts (size : Nat) (old : List Nat) (pixels : List Int) (i :
   unfold vectorFill
   rw [gen pixels _ (by simp; omega) hp]
   congr 1
-  simp only [List.getD_eq_getElem?_getD, List.getElem?_take, hi, if_true, List.getElem?_append, List.getElem?_replicate]
+  simp only [List.getD_eq_getElem?_getD, List.getElem?_append, List.getElem?_replicate]
   by_cases hl : i < old.length
   · simp [hl]
   · have : old[i]? = none := List.getElem?_eq_none (by omega)
     simp only [hl, if_false, this]
     split_ifs <;> rfl
+
+/-- the accumulating vector filler never shrinks: the result has max(previous length, max+1) entries -/
+theorem C19_vector_never_shrinks (size : Nat) (old : List Nat) (pixels : List Int) :
+    (vectorFill size old pixels).length = max old.length size := by
+  have gen : ∀ (pixels : List Int) (v : List Nat),
+      (pixels.foldl (fun v p => v.set p.toNat (v.getD p.toNat 0 + 1)) v).length = v.length := by
+    intro pixels
+    induction pixels with
+    | nil => intro v; rfl
+    | cons p rest ih => intro v; rw [List.foldl_cons, ih]; simp
+  unfold vectorFill
+  rw [gen]; simp; omega
 
 /-- normalisation in exact arithmetic: the bins sum to 1 whenever the histogram has positive mass -/
 theorem C19_normalize_sum_one (h : Hist) (hm : h.mass ≠ 0) :
@@ -301,6 +314,6 @@ example : subAxes [0] [([1, 3], 1), ([2, 3], 1), ([1, 4], 1)] = [([1], 2), ([2],
     ∧ subRange [0] [2, 2] [9, 9] [([1, 3], 1), ([2, 3], 1), ([1, 4], 1)] = [([2, 3], 1)]
     ∧ (Hist.keys [([1, 3], 1), ([2, 3], 1), ([1, 4], 1)]).Nodup := by decide
 example : Hist.mass [([5], 2), ([6], 1)] ≠ 0 := by decide
-example : vectorFill 4 [7, 7] [1, 3, 3] = [7, 8, 0, 2] := by decide
+example : vectorFill 4 [7, 7] [1, 3, 3] = [7, 8, 0, 2] ∧ vectorFill 2 [1, 1, 5] [0] = [2, 1, 5] := by decide
 
 end GilVerif.Props.C19
